@@ -235,14 +235,14 @@ Proof.
     + rewrite Hx. reflexivity.
     + destruct Hx as (y & Hy & HQ). rewrite Hy.
       change ((fix go (l : list A) : option ffi_err :=
-                 match l with [] => None | x :: t => match g x with Some e => Some e | None => go t end end) t)
+                 match l with [] => None | x :: t => match g x with Some e' => Some e' | None => go t end end) t)
         with (first_some g t).
       change ((fix go (l : list A) : result (list B) :=
                  match l with
                  | [] => Ok []
                  | x :: t => match f x with
-                             | Err e => Err e
-                             | Ok y => match go t with Err e => Err e | Ok ys => Ok (y :: ys) end
+                             | Err e1 => Err e1
+                             | Ok y => match go t with Err e2 => Err e2 | Ok ys => Ok (y :: ys) end
                              end
                  end) t) with (map_res f t).
       destruct (first_some g t) as [e|].
@@ -252,6 +252,17 @@ Qed.
 
 Lemma Forall2_length_eq : forall (A B : Type) (Q : A -> B -> Prop) l l', Forall2 Q l l' -> length l = length l'.
 Proof. intros A B Q l l' H. induction H; cbn [length]; congruence. Qed.
+
+Lemma Forall2_map_eq : forall (A B C : Type) (g : B -> C) (h : A -> C) (Q : A -> B -> Prop) l ys,
+  Forall2 Q l ys -> (forall x y, Q x y -> g y = h x) -> map g ys = map h l.
+Proof. intros A B C g h Q l ys H HQ. induction H as [|x y t t' Hxy _ IH]; cbn [map]; [reflexivity|]. now rewrite (HQ _ _ Hxy), IH. Qed.
+
+Lemma Forall2_forallb : forall (A B : Type) (p : A -> bool) (q : B -> bool) (Q : A -> B -> Prop) l ys,
+  Forall2 Q l ys -> (forall x y, Q x y -> p x = true -> q y = true) -> forallb p l = true -> forallb q ys = true.
+Proof.
+  intros A B p q Q l ys H HQ. induction H as [|x y t t' Hxy _ IH]; cbn [forallb]; [reflexivity|].
+  intros Hall. apply andb_prop in Hall as [Hx Ht]. now rewrite (HQ _ _ Hxy Hx), (IH Ht).
+Qed.
 
 (* the complete description of to_ffi_value followed by to_value *)
 Definition conv_post (v : value str) (f : ffi_value) : Prop :=
@@ -271,11 +282,10 @@ Proof.
     pose proof (map_res_spec _ _ to_ffi first_refused conv_post l IH) as H.
     destruct (first_some first_refused l) as [e|]; [rewrite H; reflexivity|].
     destruct H as (ys & Hys & HF). rewrite Hys. eexists. split; [reflexivity|]. split.
-    + cbn [of_ffi squash_errorv]. f_equal. induction HF as [|x y t t' [Hxy _] _ IHF]; cbn [map]; [reflexivity | now rewrite Hxy, IHF].
+    + cbn [of_ffi squash_errorv]. f_equal. apply (Forall2_map_eq _ _ _ _ _ _ _ _ HF). intros x y [Hxy _]. exact Hxy.
     + cbn [value_ok ffi_ok]. intros Hok. apply andb_prop in Hok as [Hlen Hall].
       unfold len_ok in *. rewrite <- (Forall2_length_eq _ _ _ _ _ HF), Hlen. cbn [andb].
-      clear Hlen Hys IH. induction HF as [|x y t t' [_ Hxy] _ IHF]; cbn [forallb] in *; [reflexivity|].
-      apply andb_prop in Hall as [Hx Ht]. rewrite (Hxy Hx), (IHF Ht). reflexivity.
+      apply (Forall2_forallb _ _ (value_ok str_ok) ffi_ok _ _ _ HF); [|exact Hall]. intros x y [_ Hxy]. exact Hxy.
   - (* Record *)
     pose proof (map_res_spec _ _ (fun kv => match to_ffi (snd kv) with Ok y => Ok (fst kv, y) | Err e => Err e end)
                   (fun kv => first_refused (snd kv))
@@ -295,24 +305,258 @@ Proof.
     destruct (first_some (fun kv => first_refused (snd kv)) l) as [e|]; [rewrite H; reflexivity|].
     destruct H as (ys & Hys & HF). rewrite Hys. eexists. split; [reflexivity|]. split.
     + cbn [of_ffi squash_errorv]. f_equal.
-      induction HF as [|x y t t' (Hk & Hxy & _) _ IHF]; cbn [map]; [reflexivity | now rewrite Hk, Hxy, IHF].
+      apply (Forall2_map_eq _ _ _ _ _ _ _ _ HF). intros x y (Hk & Hxy & _). cbn beta. now rewrite Hk, Hxy.
     + cbn [value_ok ffi_ok]. intros Hok. apply andb_prop in Hok as [Hlen Hall].
       unfold len_ok in *. rewrite <- (Forall2_length_eq _ _ _ _ _ HF), Hlen. cbn [andb].
-      clear Hlen Hys IH. induction HF as [|x y t t' (Hk & _ & Hxy) _ IHF]; cbn [forallb] in *; [reflexivity|].
-      apply andb_prop in Hall as [Hx Ht]. apply andb_prop in Hx as [Hkx Hvx].
-      rewrite Hk, Hkx, (Hxy Hvx), (IHF Ht). reflexivity.
+      apply (Forall2_forallb _ _ (fun kv => str_ok (fst kv) && value_ok str_ok (snd kv)) (fun kv => str_ok (fst kv) && ffi_ok (snd kv)) _ _ _ HF); [|exact Hall]. intros x y (Hk & _ & Hxy) Hx. cbn beta in *.
+      apply andb_prop in Hx as [Hkx Hvx]. now rewrite Hk, Hkx, (Hxy Hvx).
   - (* Tuple *)
     pose proof (map_res_spec _ _ to_ffi first_refused conv_post l IH) as H.
     destruct (first_some first_refused l) as [e|]; [rewrite H; reflexivity|].
     destruct H as (ys & Hys & HF). rewrite Hys. eexists. split; [reflexivity|]. split.
-    + cbn [of_ffi squash_errorv]. f_equal. induction HF as [|x y t t' [Hxy _] _ IHF]; cbn [map]; [reflexivity | now rewrite Hxy, IHF].
+    + cbn [of_ffi squash_errorv]. f_equal. apply (Forall2_map_eq _ _ _ _ _ _ _ _ HF). intros x y [Hxy _]. exact Hxy.
     + cbn [value_ok ffi_ok]. intros Hok. apply andb_prop in Hok as [Hlen Hall].
       unfold len_ok in *. rewrite <- (Forall2_length_eq _ _ _ _ _ HF), Hlen. cbn [andb].
-      clear Hlen Hys IH. induction HF as [|x y t t' [_ Hxy] _ IHF]; cbn [forallb] in *; [reflexivity|].
-      apply andb_prop in Hall as [Hx Ht]. rewrite (Hxy Hx), (IHF Ht). reflexivity.
+      apply (Forall2_forallb _ _ (value_ok str_ok) ffi_ok _ _ _ HF); [|exact Hall]. intros x y [_ Hxy]. exact Hxy.
   - (* TaggedUnion *)
     destruct (first_refused x) as [e|]; [rewrite IH; reflexivity|].
     destruct IH as (f & Hf & Hof & Hokf). rewrite Hf. eexists. split; [reflexivity|]. split.
     + cbn [of_ffi squash_errorv]. now rewrite Hof.
     + cbn [value_ok ffi_ok]. intros Hok. apply andb_prop in Hok as [Ht Hx]. rewrite Ht, (Hokf Hx). reflexivity.
+Qed.
+
+Lemma first_some_none : forall (A B : Type) (g : A -> option B) (l : list A),
+  Forall (fun x => g x = None) l -> first_some g l = None.
+Proof.
+  intros A B g l H. induction H as [|x t Hx _ IH]; [reflexivity|].
+  cbn [first_some]. rewrite Hx. exact IH.
+Qed.
+
+Lemma crossable_spec : forall v : value str, crossable v = true -> first_refused v = None /\ has_errorv v = false.
+Proof.
+  induction v as [e| |n|s|l IH|l IH|l IH|e names|s e|e|nm|x IH|t x IH|t s k] using value_ind';
+    cbn [crossable first_refused has_errorv]; intros H; try discriminate; try (split; reflexivity).
+  - rewrite forallb_forall in H. rewrite Forall_forall in IH. split.
+    + apply first_some_none. apply Forall_forall. intros x Hx. apply (IH x Hx (H x Hx)).
+    + apply not_true_is_false. intros He. apply existsb_exists in He as (x & Hx & Hex).
+      destruct (IH x Hx (H x Hx)) as [_ Hne]. congruence.
+  - rewrite forallb_forall in H. rewrite Forall_forall in IH. split.
+    + apply first_some_none. apply Forall_forall. intros x Hx. apply (IH x Hx (H x Hx)).
+    + apply not_true_is_false. intros He. apply existsb_exists in He as (x & Hx & Hex).
+      destruct (IH x Hx (H x Hx)) as [_ Hne]. congruence.
+  - rewrite forallb_forall in H. rewrite Forall_forall in IH. split.
+    + apply first_some_none. apply Forall_forall. intros x Hx. apply (IH x Hx (H x Hx)).
+    + apply not_true_is_false. intros He. apply existsb_exists in He as (x & Hx & Hex).
+      destruct (IH x Hx (H x Hx)) as [_ Hne]. congruence.
+  - exact (IH H).
+Qed.
+
+Lemma map_id_on : forall (A : Type) (f : A -> A) (l : list A), Forall (fun x => f x = x) l -> map f l = l.
+Proof. intros A f l H. induction H as [|x t Hx _ IH]; cbn [map]; [reflexivity | now rewrite Hx, IH]. Qed.
+
+Lemma map_id_inv : forall (A : Type) (f : A -> A) (l : list A), map f l = l -> Forall (fun x => f x = x) l.
+Proof.
+  intros A f l. induction l as [|x t IH]; cbn [map]; intros H; constructor.
+  - now injection H.
+  - apply IH. now injection H.
+Qed.
+
+(* nothing but the ErrorV nodes is altered: the conversion result equals the original iff there is none *)
+Lemma squash_errorv_id_iff : forall v : value str, squash_errorv v = v <-> has_errorv v = false.
+Proof.
+  induction v as [e| |n|s|l IH|l IH|l IH|e names|s e|e|nm|x IH|t x IH|t s k] using value_ind';
+    cbn [squash_errorv has_errorv]; try (split; [reflexivity | reflexivity]).
+  - split; discriminate.
+  - split.
+    + intros H. injection H as H. apply map_id_inv in H. apply not_true_is_false. intros He.
+      apply existsb_exists in He as (x & Hx & Hex). rewrite Forall_forall in IH, H.
+      apply (IH x Hx) in H; [congruence | exact Hx].
+    + intros H. f_equal. apply map_id_on. rewrite Forall_forall in IH |- *. intros x Hx. apply (IH x Hx).
+      apply not_true_is_false. intros Hex. assert (existsb has_errorv l = true) by (apply existsb_exists; eauto). congruence.
+  - split.
+    + intros H. injection H as H. apply not_true_is_false. intros He.
+      apply existsb_exists in He as (kv & Hkv & Hex). rewrite Forall_forall in IH.
+      apply map_id_inv in H. rewrite Forall_forall in H. specialize (H kv Hkv).
+      assert (Hs : squash_errorv (snd kv) = snd kv) by (destruct kv as [k0 v0]; cbn [fst snd] in *; now injection H).
+      apply (IH kv Hkv) in Hs. congruence.
+    + intros H. f_equal. apply map_id_on. rewrite Forall_forall in IH |- *. intros kv Hkv.
+      assert (Hne : has_errorv (snd kv) = false).
+      { apply not_true_is_false. intros Hex.
+        assert (existsb (fun kv => has_errorv (snd kv)) l = true) by (apply existsb_exists; eauto). congruence. }
+      apply (IH kv Hkv) in Hne. destruct kv as [k0 v0]. cbn [fst snd] in *. now rewrite Hne.
+  - split.
+    + intros H. injection H as H. apply map_id_inv in H. apply not_true_is_false. intros He.
+      apply existsb_exists in He as (x & Hx & Hex). rewrite Forall_forall in IH, H.
+      apply (IH x Hx) in H; [congruence | exact Hx].
+    + intros H. f_equal. apply map_id_on. rewrite Forall_forall in IH |- *. intros x Hx. apply (IH x Hx).
+      apply not_true_is_false. intros Hex. assert (existsb has_errorv l = true) by (apply existsb_exists; eauto). congruence.
+  - split.
+    + intros H. injection H as H. apply IH. exact H.
+    + intros H. f_equal. apply IH. exact H.
+Qed.
+
+(* ---- the statements used by Props/C20.v ---- *)
+
+(* refusal: Err exactly when a Closure / Fixpoint / ExternalFn / Store / ConstructorFn is met, with the error of the first one *)
+Lemma to_ffi_err_iff : forall (v : value str) e, to_ffi v = Err e <-> first_refused v = Some e.
+Proof.
+  intros v e. pose proof (to_ffi_spec v) as H. destruct (first_refused v) as [e'|].
+  - rewrite H. split; intros E; injection E as ->; reflexivity.
+  - destruct H as (f & Hf & _). rewrite Hf. split; discriminate.
+Qed.
+
+Lemma to_ffi_ok_iff : forall v : value str, (exists f, to_ffi v = Ok f) <-> first_refused v = None.
+Proof.
+  intros v. pose proof (to_ffi_spec v) as H. destruct (first_refused v) as [e'|].
+  - rewrite H. split; [intros [f Hf]; discriminate | discriminate].
+  - destruct H as (f & Hf & _). split; [reflexivity | eauto].
+Qed.
+
+Lemma of_ffi_to_ffi : forall (v : value str) f, to_ffi v = Ok f -> of_ffi f = squash_errorv v.
+Proof.
+  intros v f Hf. pose proof (to_ffi_spec v) as H. destruct (first_refused v) as [e'|]; [congruence|].
+  destruct H as (f' & Hf' & Hpost & _). congruence.
+Qed.
+
+Lemma to_ffi_ok_wf : forall (v : value str) f, to_ffi v = Ok f -> value_ok str_ok v = true -> ffi_ok f = true.
+Proof.
+  intros v f Hf Hok. pose proof (to_ffi_spec v) as H. destruct (first_refused v) as [e'|]; [congruence|].
+  destruct H as (f' & Hf' & _ & Hwf). assert (f' = f) by congruence. subst f'. exact (Hwf Hok).
+Qed.
+
+(* serialize_value then deserialize_value, with arbitrary bytes following the encoding *)
+Lemma value_roundtrip : forall v : value str, representable v = true ->
+  exists f, to_ffi v = Ok f /\ serialize_value v = Ok (encode f) /\ of_ffi f = v /\
+            forall rest, decode_ffi (encode f ++ rest) = Some (f, rest) /\ deserialize_value (encode f ++ rest) = Some v.
+Proof.
+  intros v Hrep. unfold representable in Hrep. apply andb_prop in Hrep as [Hc Hok].
+  destruct (crossable_spec v Hc) as [Hnr Hne].
+  destruct (proj2 (to_ffi_ok_iff v) Hnr) as [f Hf].
+  pose proof (of_ffi_to_ffi v f Hf) as Hof. rewrite (proj2 (squash_errorv_id_iff v) Hne) in Hof.
+  pose proof (to_ffi_ok_wf v f Hf Hok) as Hwf.
+  exists f. repeat split; try assumption.
+  - unfold serialize_value. now rewrite Hf.
+  - apply decode_ffi_encode. exact Hwf.
+  - unfold deserialize_value. rewrite decode_ffi_encode by exact Hwf. now rewrite Hof.
+Qed.
+
+(* F10, general form: whatever crosses comes back with its ErrorV nodes replaced by Unit and nothing else changed *)
+Lemma value_roundtrip_squash : forall (v : value str) bs, value_ok str_ok v = true -> serialize_value v = Ok bs ->
+  forall rest, deserialize_value (bs ++ rest) = Some (squash_errorv v).
+Proof.
+  intros v bs Hok Hs rest. unfold serialize_value in Hs. destruct (to_ffi v) as [f|e] eqn:Hf; [|discriminate].
+  injection Hs as <-. unfold deserialize_value.
+  rewrite decode_ffi_encode by (eapply to_ffi_ok_wf; eauto). now rewrite (of_ffi_to_ffi v f Hf).
+Qed.
+
+(* ------------------------------------------------------------------ *)
+(* macro arguments: Vec<(FfiValue, TypeNodeId)>                          *)
+(* ------------------------------------------------------------------ *)
+
+Lemma in_length_flat_map : forall (A : Type) (e : A -> list N) (l : list A) x,
+  In x l -> (length (e x) <= length (flat_map e l))%nat.
+Proof.
+  intros A e l x H. induction l as [|y t IH]; [contradiction|].
+  cbn [flat_map]. rewrite app_length. destruct H as [->|H]; [lia | specialize (IH H); lia].
+Qed.
+
+
+Lemma decode_args_encode : forall l rest, len_ok l = true -> forallb arg_ok l = true ->
+  decode_args (encode_args l ++ rest) = Some (l, rest).
+Proof.
+  intros l rest Hlen Hall. unfold decode_args, encode_args.
+  set (F := S (length (enc_vec (fun p : ffi_value * key => encode (fst p) ++ enc_key (snd p)) l ++ rest))).
+  apply (rt_vec _ (fun p : ffi_value * key => encode (fst p) ++ enc_key (snd p)) (dec_pair (decode F) dec_key) l); [| |exact Hlen].
+  - rewrite forallb_forall in Hall. apply Forall_forall. intros p Hp. specialize (Hall p Hp).
+    unfold arg_ok in Hall. apply andb_prop in Hall as [Hf Hk].
+    apply (rt_pair _ _ encode enc_key (decode F) dec_key p); [|apply rt_key; exact Hk].
+    intros rest'. apply decode_encode; [exact Hf|].
+    pose proof (ffi_size_le_length (fst p)) as H1.
+    pose proof (in_length_flat_map _ (fun p : ffi_value * key => encode (fst p) ++ enc_key (snd p)) l p Hp) as H2.
+    cbn beta in H2. rewrite app_length in H2.
+    subst F. unfold enc_vec. rewrite !app_length. lia.
+  - apply Forall_forall. intros p _. rewrite app_length, length_enc_key. lia.
+Qed.
+
+
+Lemma args_conv_spec : forall args : list (value str * key),
+  match first_some arg_refused args with
+  | Some e => serialize_macro_args args = Err e
+  | None => exists l, serialize_macro_args args = Ok (encode_args l) /\
+                      Forall2 (fun p q => snd q = snd p /\ conv_post (fst p) (fst q)) args l
+  end.
+Proof.
+  intros args. unfold serialize_macro_args.
+  pose proof (map_res_spec _ _ (fun p : value str * key => match to_ffi (fst p) with Ok f => Ok (f, snd p) | Err e => Err e end)
+                arg_refused (fun p q => snd q = snd p /\ conv_post (fst p) (fst q)) args) as H.
+  assert (Hpre : Forall (fun x : value str * key =>
+            match arg_refused x with
+            | Some e => match to_ffi (fst x) with Ok f => Ok (f, snd x) | Err e0 => Err e0 end = Err e
+            | None => exists y : ffi_value * key,
+                match to_ffi (fst x) with Ok f => Ok (f, snd x) | Err e => Err e end = Ok y /\
+                snd y = snd x /\ conv_post (fst x) (fst y)
+            end) args).
+  { apply Forall_forall. intros p _. unfold arg_refused. pose proof (to_ffi_spec (fst p)) as Hs.
+    destruct (first_refused (fst p)) as [e|].
+    - rewrite Hs. reflexivity.
+    - destruct Hs as (f & Hf & Hpost). rewrite Hf. exists (f, snd p). cbn [fst snd]. auto. }
+  specialize (H Hpre). destruct (first_some arg_refused args) as [e|].
+  - rewrite H. reflexivity.
+  - destruct H as (l & Hl & HF). rewrite Hl. exists l. split; [reflexivity | exact HF].
+Qed.
+
+Lemma args_roundtrip : forall args : list (value str * key),
+  len_ok args = true -> forallb arg_representable args = true ->
+  exists l, serialize_macro_args args = Ok (encode_args l) /\
+            forall rest, decode_args (encode_args l ++ rest) = Some (l, rest) /\
+                         deserialize_macro_args (encode_args l ++ rest) = Some args.
+Proof.
+  intros args Hlen Hall. pose proof (args_conv_spec args) as H.
+  assert (Hnone : first_some arg_refused args = None).
+  { apply first_some_none. rewrite forallb_forall in Hall. apply Forall_forall. intros p Hp.
+    specialize (Hall p Hp). unfold arg_representable, representable in Hall.
+    apply andb_prop in Hall as [Hr _]. apply andb_prop in Hr as [Hc _]. unfold arg_refused. apply crossable_spec. exact Hc. }
+  rewrite Hnone in H. destruct H as (l & Hl & HF). exists l. split; [exact Hl|].
+  assert (Hlen' : len_ok l = true) by (unfold len_ok in *; now rewrite <- (Forall2_length_eq _ _ _ _ _ HF)).
+  assert (Hok : forallb arg_ok l = true).
+  { apply (Forall2_forallb _ _ arg_representable arg_ok _ _ _ HF); [|exact Hall].
+    intros p q (Hk & _ & Hwf) Hp. unfold arg_representable, representable in Hp. unfold arg_ok.
+    apply andb_prop in Hp as [Hr Hkp]. apply andb_prop in Hr as [_ Hvok]. now rewrite Hk, Hkp, (Hwf Hvok). }
+  assert (Hback : map (fun p : ffi_value * key => (of_ffi (fst p), snd p)) l = args).
+  { clear Hl Hlen Hlen' Hok Hnone.
+    induction HF as [|p q t t' (Hk & Hof & _) _ IH]; cbn [map]; [reflexivity|].
+    cbn [forallb] in Hall. apply andb_prop in Hall as [Hp Ht]. rewrite (IH Ht). f_equal.
+    unfold arg_representable, representable in Hp. apply andb_prop in Hp as [Hr _]. apply andb_prop in Hr as [Hc _].
+    destruct (crossable_spec _ Hc) as [_ Hne].
+    destruct p as [v k]. cbn [fst snd] in *. rewrite Hk, Hof. f_equal. apply squash_errorv_id_iff. exact Hne. }
+  intros rest. split; [apply decode_args_encode; assumption|].
+  unfold deserialize_macro_args. rewrite decode_args_encode by assumption. now rewrite Hback.
+Qed.
+
+Lemma refusal_variants : forall (e : key) (names : list str) (s : str) (x : value str) (tag : N) (t : key),
+  to_ffi (VClosure e names) = Err ErrClosure /\ to_ffi (VFixpoint s e) = Err ErrFixpoint /\
+  to_ffi (VExternalFn s) = Err ErrExternalFn /\ to_ffi (VStore x) = Err ErrStore /\
+  to_ffi (VConstructorFn tag s t) = Err ErrConstructorFn.
+Proof. intros. repeat split. Qed.
+
+Lemma args_refusal : forall args : list (value str * key),
+  match first_some arg_refused args with
+  | Some e => serialize_macro_args args = Err e
+  | None => exists bs, serialize_macro_args args = Ok bs
+  end.
+Proof.
+  intros args. pose proof (args_conv_spec args) as H. destruct (first_some arg_refused args); [exact H|].
+  destruct H as (l & Hl & _). eauto.
+Qed.
+
+Lemma errorv_refuted : exists (v : value str) (bs : list N),
+  value_ok str_ok v = true /\ serialize_value v = Ok bs /\ deserialize_value bs = Some VUnit /\ v <> VUnit.
+Proof.
+  exists (VErrorV (Key 1 1)), (encode FErrorV). repeat split; try (vm_compute; reflexivity). discriminate.
+Qed.
+
+Lemma only_errorv_altered : forall (v : value str) bs, value_ok str_ok v = true -> serialize_value v = Ok bs ->
+  (forall rest, deserialize_value (bs ++ rest) = Some (squash_errorv v)) /\ (squash_errorv v = v <-> has_errorv v = false).
+Proof.
+  intros v bs Hok Hs. split; [apply value_roundtrip_squash; assumption | apply squash_errorv_id_iff].
 Qed.
